@@ -115,8 +115,26 @@ func (g *rgen) literal(name string, T types.Type, depth int) string {
 			return "false"
 		}
 		if u.Info()&types.IsString != 0 {
-			// strings are opaque to the model: the empty string is tried (a reproduced failure is real whatever
-			// inputs it was found with)
+			// a string is rebuilt from its length and first 32 bytes in the model when the query constrains them;
+			// otherwise the empty string is tried (a reproduced failure is real whatever inputs it was found with)
+			if ln, ok := g.inputs[name+"#strlen"]; ok {
+				if n, err := strconv.Atoi(ln); err == nil && n >= 0 && n <= 1<<16 {
+					bs := make([]byte, n)
+					for i := 0; i < n && i < 32; i++ {
+						if v, ok := g.inputs[fmt.Sprintf("%s#str[%d]", name, i)]; ok {
+							if m, ok := modelInt(v); ok {
+								if c, err := strconv.Atoi(m); err == nil && c >= 0 && c < 256 {
+									bs[i] = byte(c)
+								}
+							}
+						}
+					}
+					for i := 32; i < n; i++ {
+						bs[i] = 'x'
+					}
+					return g.typeStr(T) + "(" + strconv.Quote(string(bs)) + ")"
+				}
+			}
 			g.approx = append(g.approx, name)
 			return g.typeStr(T) + "(\"\")"
 		}
@@ -249,8 +267,12 @@ func (g *rgen) compile(e SExpr) rval {
 			a, b := g.compile(x.X), g.compile(x.Y)
 			return rval{"((" + a.expr + ") " + x.Op + " (" + b.expr + "))", types.Typ[types.Bool]}
 		case "+", "-", "*":
+			// spec integers are mathematical: the helpers abort the replay (skip, not a counterexample) when the
+			// value leaves int64
 			a, b := g.compile(x.X), g.compile(x.Y)
-			return rval{"((" + a.expr + ") " + x.Op + " (" + b.expr + "))", intT}
+			g.helpers["arith"] = true
+			fn := map[string]string{"+": "verifadd", "-": "verifsub", "*": "verifmul"}[x.Op]
+			return rval{fn + "(" + a.expr + ", " + b.expr + ")", intT}
 		case "/", "%":
 			a, b := g.compile(x.X), g.compile(x.Y)
 			return rval{"((" + a.expr + ") " + x.Op + " (" + b.expr + "))", intT}
@@ -576,10 +598,19 @@ func genericReplay(w *World, o *Obligation, rp *ReplayFile) (src, pkgRel, name s
 	if g.helpers["sliceOf"] {
 		b.WriteString("func verifSliceOf[T any](a, b []T, lo, hi int64) bool {\n\tif lo < 0 || hi < lo || hi > int64(cap(b)) || int64(len(a)) != hi-lo {\n\t\treturn false\n\t}\n\tif len(a) == 0 {\n\t\treturn true\n\t}\n\treturn &a[0] == &b[:cap(b)][lo]\n}\n")
 	}
+	if g.helpers["arith"] {
+		b.WriteString("type verifOverflow struct{}\n")
+		b.WriteString("func verifadd(a, b int64) int64 { c := a + b; if (c > a) != (b > 0) { panic(verifOverflow{}) }; return c }\n")
+		b.WriteString("func verifsub(a, b int64) int64 { c := a - b; if (c < a) != (b > 0) { panic(verifOverflow{}) }; return c }\n")
+		b.WriteString("func verifmul(a, b int64) int64 { if a == 0 || b == 0 { return 0 }; c := a * b; if c/b != a || (a == -1 && b == -9223372036854775808) || (b == -1 && a == -9223372036854775808) { panic(verifOverflow{}) }; return c }\n")
+	}
 	if g.helpers["ite"] {
 		b.WriteString("func verifite(c bool, a, b int64) int64 { if c { return a }; return b }\n")
 	}
 	b.WriteString("// replay of " + o.ID + "\nfunc TestVerifReplay(t *testing.T) {\n")
+	if g.helpers["arith"] {
+		b.WriteString("\tdefer func() {\n\t\tif r := recover(); r != nil {\n\t\t\tif _, ok := r.(verifOverflow); ok {\n\t\t\t\tt.Skip(\"a specification value leaves int64: the clause cannot be evaluated on these inputs\")\n\t\t\t}\n\t\t\tpanic(r)\n\t\t}\n\t}()\n")
+	}
 	for _, d := range decls {
 		b.WriteString("\t" + d + "\n")
 	}
